@@ -10,6 +10,7 @@ import (
 	"path/filepath"
 	"sort"
 	"strings"
+	"sync"
 	"time"
 
 	"verifharness/core"
@@ -51,7 +52,7 @@ func childRT(raw json.RawMessage, io *core.ChildIO) (any, error) {
 		func() {
 			defer func() {
 				if p := recover(); p != nil {
-					out[i].Panic = fmt.Sprint(p)
+					out[i].Panic = core.Trunc(fmt.Sprint(p), 600)
 				}
 			}()
 			db.Save(t.toReal())
@@ -63,12 +64,20 @@ func childRT(raw json.RawMessage, io *core.ChildIO) (any, error) {
 			out[i].Content = b
 			loaded, err := file.VerifLoadOffsets(cur)
 			if err != nil {
-				out[i].Err = err.Error()
+				out[i].Err = core.Trunc(err.Error(), 600)
 			} else {
+				// output guard only: a load that returns far more than was saved is cut (the
+				// comparison in the parent still sees jobs that were never saved)
+				if max := len(t) + 16; len(loaded) > max {
+					loaded = loaded[:max]
+				}
 				out[i].Loaded = fromReal(loaded)
 			}
 		}()
 		out[i].Done = true
+		if out[i].Size > 256<<20 {
+			break // runaway file size: the remaining tables stay undecided
+		}
 	}
 	return out, nil
 }
@@ -79,7 +88,9 @@ func runRT(tables []WTable, fresh bool) []rtRes {
 	res := make([]rtRes, len(tables))
 	start := 0
 	for start < len(tables) {
-		r := core.RunChild("rt", rtIn{Tables: tables[start:], Fresh: fresh}, core.ChildOpt{Timeout: 5 * time.Minute})
+		dir := scratchDir("/dev/shm")
+		r := core.RunChild("rt", rtIn{Tables: tables[start:], Fresh: fresh}, core.ChildOpt{Timeout: 5 * time.Minute, Dir: dir, KeepDir: true, GOMAXPROCS: 2})
+		os.RemoveAll(dir)
 		if r.Completed {
 			var out []rtRes
 			if err := json.Unmarshal(r.Out, &out); err == nil && len(out) == len(tables)-start {
@@ -111,6 +122,44 @@ func runRT(tables []WTable, fresh bool) []rtRes {
 	return res
 }
 
+var (
+	probeMu    sync.Mutex
+	probeCache = map[string]rtRes{}
+)
+
+// runProbes runs one-job probe tables (fresh offsetDB each), remembering results.
+func runProbes(c *core.Ctx, tabs []WTable) []rtRes {
+	keys := make([]string, len(tabs))
+	out := make([]rtRes, len(tabs))
+	var todo []WTable
+	var idx []int
+	probeMu.Lock()
+	for i, t := range tabs {
+		b, _ := json.Marshal(t)
+		keys[i] = string(b)
+		if r, ok := probeCache[keys[i]]; ok {
+			out[i] = r
+		} else {
+			todo = append(todo, t)
+			idx = append(idx, i)
+		}
+	}
+	probeMu.Unlock()
+	if len(todo) > 0 {
+		c.Count("roundtrip.shrink_probes", int64(len(todo)))
+		res := runRT(todo, true)
+		probeMu.Lock()
+		for k, i := range idx {
+			out[i] = res[k]
+			if res[k].Done {
+				probeCache[keys[i]] = res[k]
+			}
+		}
+		probeMu.Unlock()
+	}
+	return out
+}
+
 type rtFailure struct {
 	sig     string
 	what    string
@@ -120,16 +169,42 @@ type rtFailure struct {
 // explainRT attributes a failing table to its smallest failing parts: every
 // file name and every (stream, offset) is probed alone in an otherwise plain
 // one-job table; what is left is probed as a whole.
-func explainRT(c *core.Ctx, t WTable, first rtRes, inSequence bool) []rtFailure {
-	type probe struct {
-		kind string // "file" | "stream"
-		name []byte
-		off  int64
-		tbl  WTable
+type probe struct {
+	kind string // "file" | "stream" | "ids"
+	name []byte
+	off  int64
+	ids  [2]uint64
+	tbl  WTable
+}
+
+func idShape(v uint64) string {
+	switch {
+	case v < 1<<31:
+		return "<2^31"
+	case v < 1<<32:
+		return "<2^32"
+	case v < 1<<63:
+		return "<2^63"
 	}
+	return ">=2^63"
+}
+
+func probeSubject(p probe) string {
+	if p.kind == "ids" {
+		return fmt.Sprintf("inode=%d source_id=%d", p.ids[0], p.ids[1])
+	}
+	return "name " + q(p.name)
+}
+
+func probesOf(t WTable) []probe {
 	var probes []probe
 	seenF, seenS := map[string]bool{}, map[string]bool{}
 	for _, j := range t {
+		if k := fmt.Sprintf("ids\x00%d\x00%d", j.Inode, j.Src); len(j.Streams) > 0 && !seenS[k] {
+			seenS[k] = true
+			probes = append(probes, probe{kind: "ids", ids: [2]uint64{j.Inode, j.Src},
+				tbl: WTable{{File: []byte("/f"), Inode: j.Inode, Src: j.Src, Streams: []WStream{{Name: []byte("s"), Off: 1}}}}})
+		}
 		if len(j.Streams) > 0 && !seenF[string(j.File)] {
 			seenF[string(j.File)] = true
 			probes = append(probes, probe{kind: "file", name: j.File,
@@ -144,12 +219,16 @@ func explainRT(c *core.Ctx, t WTable, first rtRes, inSequence bool) []rtFailure 
 			}
 		}
 	}
+	return probes
+}
+
+func explainRT(c *core.Ctx, t WTable, first rtRes, inSequence bool) []rtFailure {
+	probes := probesOf(t)
 	tabs := make([]WTable, len(probes))
 	for i := range probes {
 		tabs[i] = probes[i].tbl
 	}
-	pres := runRT(tabs, true)
-	c.Count("roundtrip.shrink_probes", int64(len(probes)))
+	pres := runProbes(c, tabs)
 	var fails []rtFailure
 	badF, badS := map[string]bool{}, map[string]bool{}
 	for i, p := range probes {
@@ -169,7 +248,10 @@ func explainRT(c *core.Ctx, t WTable, first rtRes, inSequence bool) []rtFailure 
 			outcome, detail = "unloadable", r.Err+r.Panic
 		}
 		var sig string
-		if p.kind == "file" {
+		if p.kind == "ids" {
+			badF[fmt.Sprintf("ids\x00%d\x00%d", p.ids[0], p.ids[1])] = true
+			sig = fmt.Sprintf("file.offsetDB roundtrip: inode %s, source id %s: %s", idShape(p.ids[0]), idShape(p.ids[1]), outcome)
+		} else if p.kind == "file" {
 			badF[string(p.name)] = true
 			sig = fmt.Sprintf("file.offsetDB roundtrip: file name %s: %s", nameShape(string(p.name)), outcome)
 		} else {
@@ -181,14 +263,14 @@ func explainRT(c *core.Ctx, t WTable, first rtRes, inSequence bool) []rtFailure 
 			sig = fmt.Sprintf("file.offsetDB roundtrip: stream name %s: %s", shape, outcome)
 		}
 		fails = append(fails, rtFailure{sig: sig,
-			what: fmt.Sprintf("a one-job table with %s name %s (offset %d) saved by offsetDB.save and loaded by a fresh offsetDB.load: %s: %s",
-				p.kind, q(p.name), p.off, outcome, core.Trunc(detail, 300)),
+			what: fmt.Sprintf("a one-job table with %s %s (offset %d) saved by offsetDB.save and loaded by a fresh offsetDB.load: %s: %s",
+				p.kind, probeSubject(p), p.off, outcome, core.Trunc(detail, 300)),
 			witness: map[string]any{"table": p.tbl.pretty(), "file_bytes": string(r.Content), "load_error": r.Err, "panic": r.Panic, "loaded": r.Loaded.pretty()}})
 	}
 	// residual: the table without the parts that fail alone
 	var rest WTable
 	for _, j := range t {
-		if badF[string(j.File)] {
+		if badF[string(j.File)] || badF[fmt.Sprintf("ids\x00%d\x00%d", j.Inode, j.Src)] {
 			continue
 		}
 		nj := j
@@ -259,7 +341,7 @@ func directedTables() []WTable {
 		{File: []byte("/a"), Inode: 1, Src: 1, Streams: []WStream{st("stdout", 10), st("stderr", 20)}},
 		{File: []byte("/b"), Inode: 2, Src: 2},
 		{File: []byte("- file: /c"), Inode: 3, Src: 3, Streams: []WStream{st("- file: /d", 30), st("  streams:", 31)}},
-		{File: []byte("/e"), Inode: 4, Src: 1<<64 - 1, Streams: []WStream{st(":", 1<<63 - 1)}},
+		{File: []byte("/e"), Inode: 4, Src: 1<<64 - 1, Streams: []WStream{st(":", 1<<63-1)}},
 	})
 	// known-bad classes, always driven so that every run reports the same set
 	out = append(out, one("/f", st("", 5)), one("/f", st("stdout", 1), st("", 5)))
@@ -273,31 +355,30 @@ func directedTables() []WTable {
 }
 
 func monitorRoundTrip(c *core.Ctx) {
-	batches := c.N(16, 64)
-	per := c.N(60, 400)
-	type batch struct {
-		tables []WTable
-		res    []rtRes
-	}
-	bs := make([]batch, batches+1)
-	bs[0].tables = directedTables()
-	for b := 1; b <= batches; b++ {
-		rng := c.Rand(fmt.Sprintf("rt-%d", b))
-		o := genOpt{maxJobs: 6, bigProb: 0.03, hostile: b%4 == 0}
-		for i := 0; i < per; i++ {
-			bs[b].tables = append(bs[b].tables, genTable(rng, o))
-		}
-	}
-	core.ParallelFor(len(bs), 16, func(b int) { bs[b].res = runRT(bs[b].tables, false) })
-
+	batches := c.N(16, 256)
+	per := c.N(150, 300)
 	type failing struct {
 		t WTable
 		r rtRes
 	}
 	var failed []failing
-	for b := range bs {
-		for i, t := range bs[b].tables {
-			r := bs[b].res[i]
+	var fmu sync.Mutex
+	const maxKeep = 600 // failing tables kept for attribution (the rest is only counted)
+	// batches are generated, run and judged one at a time per worker: nothing but failures is kept
+	core.ParallelFor(batches+1, 16, func(b int) {
+		var tables []WTable
+		if b == 0 {
+			tables = directedTables()
+		} else {
+			rng := c.Rand(fmt.Sprintf("rt-%d", b))
+			o := genOpt{maxJobs: 6, bigProb: 0.03, hostile: b%8 == 0}
+			for i := 0; i < per; i++ {
+				tables = append(tables, genTable(rng, o))
+			}
+		}
+		res := runRT(tables, false)
+		for i, t := range tables {
+			r := res[i]
 			if !r.Done {
 				c.Inconclusive("roundtrip child did not finish")
 				continue
@@ -339,29 +420,49 @@ func monitorRoundTrip(c *core.Ctx) {
 						c.Count("roundtrip.info_timestamp_differs", 1)
 					}
 				}
-				if b == 0 || i%97 == 0 {
+				if (b == 0 && i == 40) || (b == 1 && i == 3) {
 					c.Sample(map[string]any{"monitor": "roundtrip", "table": t.pretty(), "file_size": r.Size, "result": "loaded == saved"})
 				}
 				continue
 			}
 			c.Count("roundtrip.failed_tables", 1)
-			failed = append(failed, failing{t, r})
+			fmu.Lock()
+			// directed tables first, then small ones: big failing tables add nothing to the attribution
+			if len(failed) < maxKeep && (b == 0 || len(t) <= 8 || len(failed) < 50) {
+				r.Loaded = nil
+				failed = append(failed, failing{t, r})
+			} else {
+				c.Count("roundtrip.failed_tables_not_attributed", 1)
+			}
+			fmu.Unlock()
+		}
+	})
+	sort.SliceStable(failed, func(a, b int) bool { return len(failed[a].t) < len(failed[b].t) })
+	// attribute every failing table to its smallest failing parts
+	var all []WTable
+	seenProbe := map[string]bool{}
+	for _, f := range failed {
+		for _, p := range probesOf(f.t) {
+			b, _ := json.Marshal(p.tbl)
+			if !seenProbe[string(b)] {
+				seenProbe[string(b)] = true
+				all = append(all, p.tbl)
+			}
 		}
 	}
-	// attribute failures (bounded: identical shapes repeat)
-	seenSig := map[string]int{}
-	budget := c.N(60, 200)
-	for _, f := range failed {
-		if budget == 0 {
-			c.Count("roundtrip.failed_tables_not_shrunk", 1)
-			continue
+	const chunk = 400
+	core.ParallelFor((len(all)+chunk-1)/chunk, 16, func(i int) {
+		hi := (i + 1) * chunk
+		if hi > len(all) {
+			hi = len(all)
 		}
-		budget--
-		for _, fl := range explainRT(c, f.t, f.r, true) {
-			seenSig[fl.sig]++
-			if seenSig[fl.sig] <= 2 {
-				c.Violation(fl.sig, fl.what, fl.witness)
-			}
+		runProbes(c, all[i*chunk:hi])
+	})
+	fails := make([][]rtFailure, len(failed))
+	core.ParallelFor(len(failed), 16, func(i int) { fails[i] = explainRT(c, failed[i].t, failed[i].r, true) })
+	for _, fl := range fails {
+		for _, f := range fl {
+			violOnce(c, f.sig, f.what, f.witness)
 		}
 	}
 	if c.Counter("roundtrip.ok_nonempty") == 0 {
@@ -402,12 +503,12 @@ func childGRT(raw json.RawMessage, io *core.ChildIO) (any, error) {
 	for i, v := range in.Values {
 		io.Log(map[string]int{"value": i})
 		if err := offset.SaveYAML(path, genericInfo{Offset: v.Offset, Cursor: string(v.Cursor)}); err != nil {
-			out[i].SaveErr = err.Error()
+			out[i].SaveErr = core.Trunc(err.Error(), 600)
 			continue
 		}
 		var got genericInfo
 		if err := offset.LoadYAML(path, &got); err != nil {
-			out[i].LoadErr = err.Error()
+			out[i].LoadErr = core.Trunc(err.Error(), 600)
 			continue
 		}
 		out[i].Offset, out[i].Cursor = got.Offset, []byte(got.Cursor)
@@ -443,7 +544,7 @@ func monitorGenericRoundTrip(c *core.Ctx) {
 			return
 		}
 		msg, fn := core.PanicFunc(r.Stderr)
-		c.Violation("offset.SaveYAML/LoadYAML roundtrip: process died: "+core.NormalizeMsg(msg)+" in "+fn, "generic offset round trip crashed", map[string]any{"last": r.LastLog(), "stderr": core.Trunc(r.Stderr, 2000)})
+		violOnce(c, "offset.SaveYAML/LoadYAML roundtrip: process died: "+core.NormalizeMsg(msg)+" in "+fn, "generic offset round trip crashed", map[string]any{"last": r.LastLog(), "stderr": core.Trunc(r.Stderr, 2000)})
 		return
 	}
 	var out []grtRes
@@ -457,11 +558,11 @@ func monitorGenericRoundTrip(c *core.Ctx) {
 		c.Nontrivial("grt|" + nameShape(string(v.Cursor)) + "|" + offsetShape(v.Offset))
 		switch {
 		case o.SaveErr != "":
-			c.Violation("offset.SaveYAML roundtrip: save error, cursor "+nameShape(string(v.Cursor)), o.SaveErr, map[string]any{"cursor": q(v.Cursor), "offset": v.Offset})
+			violOnce(c, "offset.SaveYAML roundtrip: save error, cursor "+nameShape(string(v.Cursor)), o.SaveErr, map[string]any{"cursor": q(v.Cursor), "offset": v.Offset})
 		case o.LoadErr != "":
-			c.Violation("offset.SaveYAML roundtrip: unloadable, cursor "+nameShape(string(v.Cursor)), o.LoadErr, map[string]any{"cursor": q(v.Cursor), "offset": v.Offset})
+			violOnce(c, "offset.SaveYAML roundtrip: unloadable, cursor "+nameShape(string(v.Cursor)), o.LoadErr, map[string]any{"cursor": q(v.Cursor), "offset": v.Offset})
 		case o.Offset != v.Offset || string(o.Cursor) != string(v.Cursor):
-			c.Violation("offset.SaveYAML roundtrip: loads a different value, cursor "+nameShape(string(v.Cursor)),
+			violOnce(c, "offset.SaveYAML roundtrip: loads a different value, cursor "+nameShape(string(v.Cursor)),
 				fmt.Sprintf("saved {%d %s}, loaded {%d %s}", v.Offset, q(v.Cursor), o.Offset, q(o.Cursor)), map[string]any{"cursor": q(v.Cursor), "offset": v.Offset})
 		default:
 			c.Count("generic.roundtrip_ok", 1)
